@@ -26,15 +26,29 @@ import (
 type byzDriver struct {
 	w   *world
 	idx int
-	rng *rand.Rand
+	rng *rand.Rand // used by act() only, under mu
 	mu  sync.Mutex
+	at  []byzStep // actions, times in ms relative to the slot start
 }
 
+// forged is one partial-signature message: one or several validators of the cluster in one set.
 type forged struct {
 	Class string
 	Duty  core.Duty
-	PK    core.PubKey
-	Par   core.ParSignedData
+	Set   core.ParSignedDataSet
+}
+
+type byzStep struct {
+	ms     int
+	poison bool
+}
+
+// batchCtx fixes the choices that all validators of one multi-validator batch share.
+type batchCtx struct {
+	variant  int
+	syncRoot [32]byte
+	slot     uint64
+	other    int
 }
 
 func (b *byzDriver) share(v *valInfo) tbls.PrivateKey { return v.Shares[b.idx+1] }
@@ -135,13 +149,48 @@ func (b *byzDriver) valFor(kind string) *valInfo {
 	return w.vals[b.rng.Intn(len(w.vals))]
 }
 
-// forge produces one partial signature of a PRNG-chosen class.
+// popularSyncRoot is the block root most VCs of the case sign (the one that can reach the threshold).
+func (b *byzDriver) popularSyncRoot() [32]byte {
+	w := b.w
+	cnt := map[int]int{}
+	best := 0
+	for i := 0; i < w.n; i++ {
+		if w.hasStack(i) {
+			cnt[w.p.SyncChoice[i]]++
+			if cnt[w.p.SyncChoice[i]] > cnt[best] {
+				best = w.p.SyncChoice[i]
+			}
+		}
+	}
+
+	return w.syncRoots[best]
+}
+
+func (b *byzDriver) newBatchCtx() batchCtx {
+	w := b.w
+	own := b.idx + 1
+	bc := batchCtx{variant: b.rng.Intn(6)}
+	if b.rng.Intn(3) == 0 {
+		bc.syncRoot = w.syncRoots[b.rng.Intn(len(w.syncRoots))]
+	} else {
+		bc.syncRoot = b.popularSyncRoot()
+	}
+	bc.slot = b.otherForkEpoch()*w.ch.spe + uint64(b.rng.Intn(int(w.ch.spe)))
+	bc.other = 1 + b.rng.Intn(w.n)
+	for bc.other == own {
+		bc.other = 1 + b.rng.Intn(w.n)
+	}
+
+	return bc
+}
+
+// forge produces one message of a PRNG-chosen class: a single partial signature or, for the duty
+// kinds every validator of the cluster performs (attester, sync), a batch of 2-3 validators in one
+// set, all forged the same way.
 func (b *byzDriver) forge() (*forged, error) {
 	w := b.w
 	ks := b.kinds()
 	kind := ks[b.rng.Intn(len(ks))]
-	v := b.valFor(kind)
-	own := b.idx + 1
 	classes := []string{"other-data", "other-data", "other-data", "honest-object-foreign-signature", "claims-other-share", "zero-or-garbage-signature", "replay-honest"}
 	if kind == "sync" {
 		classes = append(classes, "same-message-root-other-fork", "same-message-root-other-fork", "same-message-root-other-fork")
@@ -150,14 +199,65 @@ func (b *byzDriver) forge() (*forged, error) {
 		classes = append(classes, "cross-validator")
 	}
 	class := classes[b.rng.Intn(len(classes))]
-	variant := b.rng.Intn(6)
+	multi := (kind == "attester" || kind == "sync") && len(w.vals) > 1 && class != "replay-honest" && b.rng.Intn(2) == 0
+
+	return b.forgeClass(kind, class, multi)
+}
+
+// forgeClass forges class for kind, for one validator or (multi) for 2-3 validators in one set.
+func (b *byzDriver) forgeClass(kind, class string, multi bool) (*forged, error) {
+	w := b.w
+	bc := b.newBatchCtx()
+	vals := []*valInfo{b.valFor(kind)}
+	if multi {
+		perm := b.rng.Perm(len(w.vals))
+		k := 2 + b.rng.Intn(len(w.vals)-1) // 2..len
+		vals = nil
+		for _, i := range perm[:k] {
+			vals = append(vals, w.vals[i])
+		}
+	}
+	out := &forged{Class: kind + "/" + class, Set: core.ParSignedDataSet{}}
+	if multi {
+		out.Class += "/batch"
+	}
+	for _, v := range vals {
+		f, err := b.forgeOne(kind, v, class, bc)
+		if err != nil {
+			return nil, err
+		}
+		if f == nil {
+			continue
+		}
+		if class == "replay-honest" {
+			return f, nil
+		}
+		if len(out.Set) > 0 && f.Duty != out.Duty {
+			continue // one message carries one duty
+		}
+		out.Duty = f.Duty
+		for pk, par := range f.Set {
+			out.Set[pk] = par
+		}
+	}
+	if len(out.Set) == 0 {
+		return nil, nil
+	}
+
+	return out, nil
+}
+
+func (b *byzDriver) forgeOne(kind string, v *valInfo, class string, bc batchCtx) (*forged, error) {
+	w := b.w
+	own := b.idx + 1
+	variant := bc.variant
 	mk := func(item any, duty core.Duty, shareIdx int) (*forged, error) {
 		sd, err := toCore(item)
 		if err != nil {
 			return nil, err
 		}
 
-		return &forged{Class: kind + "/" + class, Duty: duty, PK: v.Core, Par: core.ParSignedData{SignedData: sd, ShareIdx: shareIdx}}, nil
+		return &forged{Class: kind + "/" + class, Duty: duty, Set: core.ParSignedDataSet{v.Core: core.ParSignedData{SignedData: sd, ShareIdx: shareIdx}}}, nil
 	}
 	switch class {
 	case "other-data":
@@ -174,9 +274,7 @@ func (b *byzDriver) forge() (*forged, error) {
 		// a sync committee message for the same block root whose slot lies in another fork: the
 		// message root (the block root) equals the honest one, the signing root does not, and the
 		// signature is perfectly valid for this identity's share.
-		ep := b.otherForkEpoch()
-		m := &altair.SyncCommitteeMessage{Slot: eth2p0.Slot(ep*w.ch.spe + uint64(b.rng.Intn(int(w.ch.spe)))), ValidatorIndex: v.Idx,
-			BeaconBlockRoot: w.syncRoots[b.rng.Intn(len(w.syncRoots))]}
+		m := &altair.SyncCommitteeMessage{Slot: eth2p0.Slot(bc.slot), ValidatorIndex: v.Idx, BeaconBlockRoot: bc.syncRoot}
 		if err := w.ch.sign(m, b.share(v), "", nil); err != nil {
 			return nil, err
 		}
@@ -208,12 +306,7 @@ func (b *byzDriver) forge() (*forged, error) {
 		if err := w.ch.sign(item, b.share(v), "", nil); err != nil {
 			return nil, err
 		}
-		other := 1 + b.rng.Intn(w.n)
-		for other == own {
-			other = 1 + b.rng.Intn(w.n)
-		}
-
-		return mk(item, duty, other)
+		return mk(item, duty, bc.other)
 	case "cross-validator":
 		item, duty, err := b.honestObject(kind, v)
 		if err != nil {
@@ -255,9 +348,7 @@ func (b *byzDriver) forge() (*forged, error) {
 		if err != nil {
 			return nil, err
 		}
-		for pk, par := range set {
-			return &forged{Class: "replay-honest", Duty: duty, PK: pk, Par: par}, nil
-		}
+		return &forged{Class: "replay-honest", Duty: duty, Set: set}, nil
 	}
 
 	return nil, nil
@@ -295,7 +386,7 @@ func (b *byzDriver) honestObject(kind string, v *valInfo) (any, core.Duty, error
 }
 
 func (b *byzDriver) msg(f *forged) (*pbv1.ParSigExMsg, error) {
-	pb, err := core.ParSignedDataSetToProto(core.ParSignedDataSet{f.PK: f.Par})
+	pb, err := core.ParSignedDataSetToProto(f.Set)
 	if err != nil {
 		return nil, err
 	}
@@ -304,25 +395,38 @@ func (b *byzDriver) msg(f *forged) (*pbv1.ParSigExMsg, error) {
 }
 
 // act forges and sends: the same content to a subset, or different content to different peers.
-func (b *byzDriver) act() {
+func (b *byzDriver) act() { b.actWith("", false) }
+
+// poison sends a multi-validator batch of cross-fork sync-committee partials (same block root as
+// the honest majority, slot in another fork, valid under this identity's shares) to every peer,
+// early enough to be among the first t partials the peers store for those validators.
+func (b *byzDriver) poison() { b.actWith("same-message-root-other-fork", true) }
+
+func (b *byzDriver) actWith(forceClass string, all bool) {
 	w := b.w
 	b.mu.Lock()
 	defer b.mu.Unlock()
 	var targets []int
 	for i := 0; i < w.n; i++ {
-		if i != b.idx && w.hasStack(i) && b.rng.Intn(4) != 0 {
+		if i != b.idx && w.hasStack(i) && (all || b.rng.Intn(4) != 0) {
 			targets = append(targets, i)
 		}
 	}
 	if len(targets) == 0 {
 		return
 	}
-	equivocate := b.rng.Intn(2) == 0
+	equivocate := forceClass == "" && b.rng.Intn(2) == 0
 	var f *forged
 	var wg sync.WaitGroup
 	for _, tgt := range targets {
 		if f == nil || equivocate {
-			nf, err := b.forge()
+			var nf *forged
+			var err error
+			if forceClass != "" {
+				nf, err = b.forgeClass("sync", forceClass, true)
+			} else {
+				nf, err = b.forge()
+			}
 			if err != nil {
 				w.mon.note("byz %d: forge: %v", b.idx, err)
 				w.r.Count("byz/forge-error", 1)
@@ -344,7 +448,7 @@ func (b *byzDriver) act() {
 			reps = 2 + b.rng.Intn(2) // duplicated
 		}
 		w.r.Count("byz/sent/"+f.Class, int64(reps))
-		w.mon.note("byz %d -> node %d: %s %v share=%d x%d", b.idx, tgt, f.Class, f.Duty, f.Par.ShareIdx, reps)
+		w.mon.note("byz %d -> node %d: %s %v validators=%d x%d", b.idx, tgt, f.Class, f.Duty, len(f.Set), reps)
 		if w.sched.isCrashed(tgt) || w.sched.isCrashed(b.idx) {
 			continue
 		}
@@ -359,21 +463,33 @@ func (b *byzDriver) act() {
 	wg.Wait()
 }
 
-// run spreads the actions over the case: some before the honest nodes act, most while they do.
-func (b *byzDriver) run(actions int) {
+// schedule draws the action times (before any goroutine uses the driver's PRNG): some before the
+// honest nodes act, most while they do. Cases with sync-committee duties and several validators
+// start with a poison batch (and repeat it once later for late starters).
+func (b *byzDriver) schedule(actions int) {
 	w := b.w
-	var at []int
 	for i := 0; i < actions; i++ {
-		at = append(at, -300+b.rng.Intn(4300))
+		b.at = append(b.at, byzStep{ms: -300 + b.rng.Intn(4300)})
 	}
-	sort.Ints(at)
-	for _, ms := range at {
-		if !w.sleepUntil(w.after(ms)) {
+	if w.hasKind("sync") && len(w.vals) > 1 && b.rng.Intn(5) != 0 {
+		b.at = append(b.at, byzStep{ms: -350 + b.rng.Intn(300), poison: true}, byzStep{ms: 200 + b.rng.Intn(2000), poison: true})
+	}
+	sort.Slice(b.at, func(i, j int) bool { return b.at[i].ms < b.at[j].ms })
+}
+
+func (b *byzDriver) run() {
+	w := b.w
+	for _, st := range b.at {
+		if !w.sleepUntil(w.after(st.ms)) {
 			return
 		}
 		if w.stopped.Load() {
 			return
 		}
-		b.act()
+		if st.poison {
+			b.poison()
+		} else {
+			b.act()
+		}
 	}
 }
